@@ -44,7 +44,7 @@ MANIFEST = {
 
 
 def plan(tier):
-    t = 240 if tier == "quick" else 1500
+    t = 240 if tier == "quick" else 900
     n = N_FUN_SHAPES
     seq = [f"0:{l},1:{a}" for l in range(3) for a in range(n if l < 2 else N_CLS_SHAPES)]
     return [
